@@ -100,7 +100,9 @@ func c07Bulk(c *fx.Ctx, fa *c07Fast, rulesOn bool, in []byte) {
 
 // c07Slow: one input through every public one-shot entry point of package ce (default or small config)
 func c07Slow(c *fx.Ctx, in []byte, tpl interface{}, tname string, rulesOn, small bool) {
-	c.TraceInput(func() string { return fmt.Sprintf("one-shot rules=%v small=%v template=%s input=%x", rulesOn, small, tname, in) })
+	c.TraceInput(func() string {
+		return fmt.Sprintf("one-shot rules=%v small=%v template=%s input=%x", rulesOn, small, tname, in)
+	})
 	cfg := func() *configuration.Configuration { return c07Config(rulesOn, small) }
 	calls := []struct {
 		name string
